@@ -13,10 +13,10 @@ S=$(mktemp -d /tmp/zk-sens.XXXXXX)
 cleanup() { git -C /repo worktree remove --force $S/repo 2>/dev/null; rm -rf $S; git -C /repo worktree prune; }
 trap cleanup EXIT
 git -C /repo worktree add -q --detach $S/repo HEAD || exit 2
-cp -r $V/sim/bbs $S/bbs; cp -r $V/sim/cl $S/cl; cp -r $V/sim/shadow $S/shadow
+cp -r $V/sim/bbs $S/bbs; cp -r $V/sim/cl $S/cl; cp -r $V/sim/shadow $S/shadow; cp -r $V/sim/core $S/core   # a snapshot: later edits under /verif do not disturb a running self-test
 rm -rf $S/bbs/target $S/cl/target
-sed -i "s|path = \"../core\"|path = \"$V/sim/core\"|; s|path = \"/repo\"|path = \"$S/repo\"|" $S/bbs/Cargo.toml
-sed -i "s|path = \"../core\"|path = \"$V/sim/core\"|; s|path = \"../shadow\"|path = \"$S/shadow\"|" $S/cl/Cargo.toml
+sed -i "s|path = \"/repo\"|path = \"$S/repo\"|" $S/bbs/Cargo.toml
+sed -i "s|path = \"../shadow\"|path = \"$S/shadow\"|" $S/cl/Cargo.toml
 sed -i "s|/repo/src/lib.rs|$S/repo/src/lib.rs|" $S/shadow/Cargo.toml
 sed -i "s|/verif/build/target-bbs|$S/target-bbs|" $S/bbs/.cargo/config.toml
 sed -i "s|/verif/build/target-cl|$S/target-cl|" $S/cl/.cargo/config.toml
@@ -26,6 +26,7 @@ build() { # engine
 }
 check() { # id -> exit code
   case $1 in C0*|C10|C11|C12) e=bbs;; *) e=cl;; esac
+  : > $S/last.log
   build $e || return 2
   ZKSIM_VERIF_DIR=$S/out ZKSIM_REPO=$S/repo ZKSIM_SHIM=$V/build/libzkent.so timeout 1800 $S/target-$e/release/zksim-$e check $1 > $S/last.log 2>&1
 }
